@@ -117,6 +117,10 @@ pub enum GOp {
     /// circuit may do); the result is only compared in honest runs, but the call itself is made
     /// in every mode, setup included (where it returns AssignmentMissing)
     ReadValue { a: u8 },
+    /// CondSelectGadget::conditionally_select_power_of_two_vector over a table of 2^bits registers
+    /// (registers repeat cyclically), index bits big-endian as the trait documents; bits are witnesses
+    /// or constants
+    SelectVector { dst: u8, bits: u8, index: u8, regs: Vec<u8>, bits_const: bool },
 }
 
 impl GOp {
@@ -735,6 +739,38 @@ impl Machine {
                     }
                 }
             }
+            GOp::SelectVector { dst, bits, index, regs, bits_const } => {
+                let nbits = (*bits % 4) as usize; // tables of 1, 2, 4, 8 entries
+                let n = 1usize << nbits;
+                if regs.is_empty() {
+                    return Ok(StepOut::Skipped);
+                }
+                let mut vars: Vec<ElementVar> = Vec::with_capacity(n);
+                let mut nats: Vec<AE> = Vec::with_capacity(n);
+                for i in 0..n {
+                    let (v, na, _) = ereg!(regs[i % regs.len()]);
+                    vars.push((*v).clone());
+                    nats.push(na);
+                }
+                let idx = (*index as usize) % n;
+                // position is big-endian: position[0] is the most significant bit of the index
+                let mut pos: Vec<Boolean<Fq>> = Vec::with_capacity(nbits);
+                for k in 0..nbits {
+                    let bit = (idx >> (nbits - 1 - k)) & 1 == 1;
+                    if *bits_const {
+                        pos.push(Boolean::constant(bit));
+                    } else {
+                        let b = Boolean::new_witness(cs.clone(), || Ok(bit)).map_err(|e| synth(e, &name))?;
+                        self.inputs.push(InKind::Bool(b.clone(), bit));
+                        pos.push(b);
+                    }
+                }
+                let out = ElementVar::conditionally_select_power_of_two_vector(&pos, &vars).map_err(|e| synth(e, &name))?;
+                let nat = nats[idx];
+                self.check_elem(&name, &out, &nat, ctx)?;
+                let is_const = out.cs().is_none();
+                self.ev[*dst as usize % NE] = Some(EReg { var: std::rc::Rc::new(out), native: nat, is_const, poisoned: false });
+            }
             GOp::ReadValue { a } => {
                 // on the register's own variable (not a clone), so that lazy state changes persist
                 let idx = {
@@ -778,7 +814,7 @@ impl Machine {
         self.steps_done += 1;
         if poison_used {
             // whatever the gadget produced is derived from an undecodable encoding
-            if let GOp::Bin { dst, .. } | GOp::BinConst { dst, .. } | GOp::Negate { dst, .. } | GOp::Double { dst, .. } | GOp::DoubleInPlace { dst, .. } | GOp::ScalarMul { dst, .. } | GOp::CondSelect { dst, .. } | GOp::CondSelectConst { dst, .. } = op {
+            if let GOp::Bin { dst, .. } | GOp::BinConst { dst, .. } | GOp::Negate { dst, .. } | GOp::Double { dst, .. } | GOp::DoubleInPlace { dst, .. } | GOp::ScalarMul { dst, .. } | GOp::CondSelect { dst, .. } | GOp::CondSelectConst { dst, .. } | GOp::SelectVector { dst, .. } = op {
                 if let Some(r) = self.ev[*dst as usize % NE].as_mut() {
                     r.poisoned = true;
                 }
@@ -976,6 +1012,7 @@ pub fn gop() -> BoxedStrategy<GOp> {
         1 => e().prop_map(|a| GOp::ToBits { a }),
         1 => e().prop_map(|a| GOp::ToBytes { a }),
         2 => e().prop_map(|a| GOp::ReadValue { a }),
+        1 => (e(), 0u8..4, any::<u8>(), proptest::collection::vec(e(), 1..=8), any::<bool>()).prop_map(|(dst, bits, index, regs, bits_const)| GOp::SelectVector { dst, bits, index, regs, bits_const }),
     ]
     .boxed()
 }
